@@ -67,6 +67,11 @@ func prop(t *rapid.T) {
 	ev.Case()
 	w := chain.NewWorld()
 	opts := model.Options{NotAllowed: rapid.Bool().Draw(t, "handle405"), Strict: rapid.Bool().Draw(t, "strict")}
+	if rapid.Bool().Draw(t, "caching") {
+		// handlers mutate Params also on caching routers: C10 lists "parameters" among the things an earlier
+		// request may have done to its context
+		opts.Caching, opts.CacheCap = true, rapid.IntRange(0, 3).Draw(t, "cap")
+	}
 	cfg := chain.ProgCfg{
 		MaxDepth: rapid.IntRange(0, 2).Draw(t, "maxDepth"), MaxMw: 2, MaxStmts: 4, Fallbacks: true, Dynamic: true,
 		Script: chain.ScriptCfg{Writes: true, Data: true, Pollute: true, Abort: 6, Panic: 10},
@@ -118,6 +123,9 @@ func prop(t *rapid.T) {
 			t.Fatalf("%s\n%s", d, ctx)
 		}
 		ev.Class("request:" + res.Kind.String())
+		if opts.Caching {
+			ev.Class("router:caching")
+		}
 		if st.Ctx != nil {
 			if was, seen := dirty[st.Ctx]; seen {
 				ev.Class("context:recycled")
